@@ -77,6 +77,8 @@ pub struct Plan {
     pub death_is_violation: bool,
     // if non-empty, only deaths in these sections are violations
     pub death_sections: Vec<&'static str>,
+    // a death while the case had set flag 1 ("the reference accepts this input within its fuel") is a violation
+    pub flagged_death_is_violation: bool,
     pub explanation: String,
 }
 
@@ -92,6 +94,7 @@ impl Plan {
             max_workers: 16,
             death_is_violation: false,
             death_sections: vec![],
+            flagged_death_is_violation: false,
             explanation: String::new(),
         }
     }
@@ -142,6 +145,9 @@ pub struct Ctx {
     pub replay_mode: bool,
     pub gram_bin: String,
     pub tmp_dir: String,
+    // second word of the progress file: a flag the case sets before a risky call, read by the
+    // driver if the worker dies (1 = the reference says the input cannot make gram diverge)
+    pub flag_file: Option<fs::File>,
 }
 
 impl Ctx {
@@ -165,6 +171,12 @@ impl Ctx {
             replay_mode: false,
             gram_bin: std::env::var("GV_GRAM_BIN").unwrap_or_default(),
             tmp_dir: format!("{VERIF_DIR}/.cache/run/replay.{}", std::process::id()),
+            flag_file: None,
+        }
+    }
+    pub fn set_flag(&mut self, v: u64) {
+        if let Some(f) = &self.flag_file {
+            let _ = f.write_at(&v.to_le_bytes(), 8);
         }
     }
     pub fn count(&mut self, k: &str) {
@@ -261,6 +273,9 @@ impl Ctx {
 }
 
 pub fn load_known(prop: &str) -> Vec<Json> {
+    if std::env::var("GV_NO_KNOWN").is_ok() {
+        return vec![];
+    }
     let p = format!("{VERIF_DIR}/known_findings.json");
     let Ok(s) = fs::read_to_string(&p) else { return vec![] };
     let Ok(j) = Json::parse(&s) else { return vec![] };
@@ -364,6 +379,7 @@ pub fn worker_main(prop: &'static dyn Prop, tier: Tier, seed: u64, shard: u64, n
             let mut ctx = Ctx::new(prop.id(), tier, seed);
             ctx.out = Some(out2);
             ctx.tmp_dir = tmp_dir;
+            ctx.flag_file = progress.try_clone().ok();
             let mut g = start;
             // Align to this shard.
             while g % nshards != shard {
@@ -378,6 +394,7 @@ pub fn worker_main(prop: &'static dyn Prop, tier: Tier, seed: u64, shard: u64, n
                 let mut buf = [0u8; 8];
                 buf.copy_from_slice(&g.to_le_bytes());
                 let _ = progress.write_at(&buf, 0);
+                let _ = progress.write_at(&0u64.to_le_bytes(), 8);
                 case_started.store(t0.elapsed().as_millis() as u64, Ordering::SeqCst);
                 case_serial.store(serial, Ordering::SeqCst);
                 ctx.section.clear();
@@ -492,11 +509,14 @@ fn run_shard(exe: &Path, prop: &str, tier: Tier, seed: u64, shard: u64, nshards:
         return WorkerEnd::Done;
     }
     let mut buf = [0u8; 8];
-    let g = fs::File::open(format!("{run_dir}/progress.{shard}")).ok().and_then(|f| f.read_at(&mut buf, 0).ok()).map(|_| u64::from_le_bytes(buf)).unwrap_or(u64::MAX - 1);
+    let pf = fs::File::open(format!("{run_dir}/progress.{shard}")).ok();
+    let g = pf.as_ref().and_then(|f| f.read_at(&mut buf, 0).ok()).map(|_| u64::from_le_bytes(buf)).unwrap_or(u64::MAX - 1);
+    let mut fb = [0u8; 8];
+    let flag = pf.as_ref().and_then(|f| f.read_at(&mut fb, 8).ok()).map(|n| if n == 8 { u64::from_le_bytes(fb) } else { 0 }).unwrap_or(0);
     if timed_out {
         return WorkerEnd::Timeout(g);
     }
-    let desc = format!("status={status:?} stderr={}", clip(err.trim(), 300));
+    let desc = format!("flag={flag} status={status:?} stderr={}", clip(err.trim(), 300));
     WorkerEnd::Died(g, desc)
 }
 
@@ -584,7 +604,8 @@ fn finish(prop: &'static dyn Prop, tier: Tier, seed: u64, plan: &Plan, mut a: Ag
         let sname = plan.sections.get(si).map(|s| s.name).unwrap_or("?");
         let desc = if g >= 0 { prop.describe(tier, seed, sname, idx) } else { String::new() };
         *a.counts.entry("worker-deaths".into()).or_insert(0) += 1;
-        if plan.death_is_violation && g >= 0 && (plan.death_sections.is_empty() || plan.death_sections.contains(&sname)) {
+        let flagged = d.str_of("desc").starts_with("flag=1 ");
+        if g >= 0 && ((plan.death_is_violation && (plan.death_sections.is_empty() || plan.death_sections.contains(&sname))) || (plan.flagged_death_is_violation && flagged)) {
             let v = Json::obj()
                 .set("t", Json::s("V"))
                 .set("key", Json::s("worker-death"))
@@ -659,6 +680,56 @@ fn finish(prop: &'static dyn Prop, tier: Tier, seed: u64, plan: &Plan, mut a: Ag
         out_lines.push(format!("({} more violation keys; see the evidence file)", new_keys.len() - 12));
     }
 
+    // Sanitizer shards (Miri), when the check script ran them: fold into evidence and verdict.
+    let mut sanitizer = Json::Null;
+    if let Ok(dir) = std::env::var("GV_SANITIZER_DIR") {
+        let mut shards = 0i64;
+        let mut clean = 0i64;
+        let mut cases = 0i64;
+        let mut inconclusive = 0i64;
+        let mut reports: Vec<Json> = vec![];
+        if let Ok(rd) = fs::read_dir(&dir) {
+            for ent in rd.filter_map(|e| e.ok()) {
+                let name = ent.file_name().to_string_lossy().into_owned();
+                if !name.starts_with("shard.") {
+                    continue;
+                }
+                shards += 1;
+                let text = fs::read_to_string(ent.path()).unwrap_or_default();
+                for l in text.lines() {
+                    if let Some(rest) = l.strip_prefix("miri shard ") {
+                        if let Some(n) = rest.split(": ").nth(1).and_then(|x| x.split(' ').next()).and_then(|x| x.parse::<i64>().ok()) {
+                            cases += n;
+                        }
+                    }
+                }
+                let ub = text.contains("Undefined Behavior");
+                let leak = text.contains("memory leaked");
+                if ub || leak {
+                    let kind = if ub { "undefined-behaviour" } else { "leak" };
+                    reports.push(Json::obj().set("shard", Json::s(&name)).set("kind", Json::s(kind)).set("log", Json::s(&ent.path().to_string_lossy())));
+                    let key = format!("miri:{kind}");
+                    let e = new_keys.entry(key.clone()).or_insert((0, ent.path().to_string_lossy().into_owned()));
+                    e.0 += 1;
+                } else if text.contains("miri-exit=0") {
+                    clean += 1;
+                } else {
+                    inconclusive += 1; // unsupported operation, timeout, build failure: never a violation
+                }
+            }
+        }
+        sanitizer = Json::obj()
+            .set("tool", Json::s("miri (cargo +nightly miri run, -Zmiri-disable-isolation)"))
+            .set("shards", Json::Int(shards))
+            .set("shards_clean", Json::Int(clean))
+            .set("shards_inconclusive", Json::Int(inconclusive))
+            .set("cases_interpreted", Json::Int(cases))
+            .set("reports", Json::Arr(reports));
+        out_lines.retain(|l| !l.starts_with("VIOLATION property=") || !l.contains("key=miri:"));
+        for (key, (n, path)) in new_keys.iter().filter(|(k, _)| k.starts_with("miri:")) {
+            out_lines.push(format!("VIOLATION property={id} replay={path} key={key} occurrences={n}"));
+        }
+    }
     let evaluations = a.evals;
     let nviol: u64 = new_keys.values().map(|x| x.0).sum();
     let mut status = if nviol > 0 { 1 } else { 0 };
@@ -724,6 +795,9 @@ fn finish(prop: &'static dyn Prop, tier: Tier, seed: u64, plan: &Plan, mut a: Ag
         cov.put("inconclusive_reason", Json::s(&inconclusive_reason));
     }
     cov.put("gram_repo", Json::s(crate::GRAM_REPO));
+    if sanitizer != Json::Null {
+        cov.put("sanitizer", sanitizer);
+    }
     let ev = Json::obj()
         .set("property_id", Json::s(id))
         .set("tier", Json::s(tier.name()))
